@@ -60,8 +60,10 @@ package dispatcher
 //@   modifies nothing
 //@ iface gopacket.SerializeBuffer.PushLayer
 //@   modifies nothing
+//@ # (the serialize buffer has storage of its own: what it hands out is not the receive buffer)
 //@ iface gopacket.SerializeBuffer.Bytes
 //@   modifies nothing
+//@   ensures fresh(result)
 //@ extern (github.com/gopacket/gopacket.Payload).SerializeTo
 //@   modifies nothing
 //@ extern (github.com/gopacket/gopacket.Payload).LayerType
@@ -113,3 +115,6 @@ package dispatcher
 //@   ensures result0 != nil && result1.ip.z.value != nil ==> result1 == prevHop || unmapped(result1.ip) == unmapped(underlay)
 //@   ensures result0 != nil && result1.ip.z.value != nil && result1 != prevHop ==> sameArray(result0, buf) && len(result0) == len(buf)
 //@   ensures result0 != nil && result1.ip.z.value != nil && !s.isDispatcher ==> result1 == prevHop
+//@   # a packet that is passed on as received (not a rebuilt reply) goes to the host the datagram was addressed to - also
+//@   # when the derived destination happens to equal the previous hop
+//@   ensures result0 != nil && result1.ip.z.value != nil && sameArray(result0, buf) ==> unmapped(result1.ip) == unmapped(underlay)
